@@ -85,9 +85,17 @@ func runC13(c *Ctx) {
 		}
 		for _, s := range sends[f] {
 			key := fmt.Sprintf("connection.%s / send in %s / %s", f, shortFn(s.fn), c.constructOf(s.fn, s.ins))
+			// a send is safe only if every goroutine that may close the channel is the sender's own goroutine role:
+			// with two closing roles, the send of one can meet the close of the other
 			foreign := []string{}
 			for _, r := range s.role {
-				if !closerRoles[r] {
+				other := !closerRoles[r]
+				for cr := range closerRoles {
+					if cr != r {
+						other = true
+					}
+				}
+				if other {
 					foreign = append(foreign, r)
 				}
 			}
